@@ -276,6 +276,7 @@ def launch_geometry(e, n, bs):
     old_np, had_int = xcupy.np, hasattr(xcupy, "int")
     xcupy.np = _NpFacade()
     xcupy.int = _sym_int
+    xocl.int = _sym_int
     try:
         k = xcupy.KernelCupy(function=fcu, description=xo.Kernel(args=[], n_threads=n), block_size=bs, context=None, shared_mem_size_bytes=0)
         k()
@@ -286,6 +287,7 @@ def launch_geometry(e, n, bs):
         xcupy.np = old_np
         if not had_int:
             del xcupy.int
+        del xocl.int
     (grid,), (block,) = rec["cuda"]
     (G,), lsz = rec["ocl"]
     return T(grid), T(block), T(G), lsz
